@@ -187,3 +187,15 @@ def queries():
     except Exception:
         pass
     return qs
+
+
+# ---- eqOID native of the decoders (curve / algorithm identification), added after the seeded change C18c escaped
+_c18_q2 = queries
+def queries():
+    qs = _c18_q2()
+    try:
+        import C18_eqoid_part
+        qs = qs + [q for q in C18_eqoid_part.queries() if True]
+    except Exception:
+        pass
+    return qs
